@@ -52,3 +52,114 @@ def handle (j : Json) : Except String Json := do
       ("read", jList (fun v => jList (fun id => jr (readBlock s v id)) ids) views)])
 
 end LianVerif.Drv.BlockView
+
+/-! Driver for model "blockworld": histories over `GIRBlockViewer` objects.  Request
+`{"m":"blockworld","atomic":bool,"ops":[…],"ids":[int|null…],"ks":[int…],"codes":[nat…],"universe":[[uid,id]…]}`,
+ops `["new",[[kind,id,uid,tag,label]…]] | ["empty"] | ["copy",i] | ["read",i,id|null] | ["append",i,j] | ["probe"]`.
+Reply: one entry per op; a probe answers with the full battery of queries on every slot. -/
+namespace LianVerif.Drv.BlockWorld
+open Lean LianVerif.Drv LianVerif.BlockView
+
+def getOptInt (j : Json) : Except String (Option Int) :=
+  match j with
+  | .null => pure none
+  | _ => do pure (some (← getInt j))
+
+def getVStmt (j : Json) : Except String VStmt := do
+  let a ← getArr j
+  if a.size != 5 then throw "stmt must be [kind, id, uid, tag, label]"
+  let k ← getStr a[0]!
+  let kind ← match k with
+    | "s" => pure Kind.start
+    | "e" => pure Kind.fin
+    | "o" => pure Kind.other
+    | _ => throw s!"unknown kind {k}"
+  pure { core := ⟨kind, ← getInt a[1]!⟩, uid := ← getNat a[2]!, tag := ← getNat a[3]!, label := ← getInt a[4]! }
+
+inductive Cmd where
+  | op (o : VOp)
+  | probe
+
+def getCmd (j : Json) : Except String Cmd := do
+  let a ← getArr j
+  let k ← getStr a[0]!
+  match k with
+  | "new" => pure (.op (.new (← listOf getVStmt a[1]!)))
+  | "empty" => pure (.op .empty)
+  | "copy" => pure (.op (.copy (← getNat a[1]!)))
+  | "read" => pure (.op (.read (← getNat a[1]!) (← getOptInt a[2]!)))
+  | "append" => pure (.op (.append (← getNat a[1]!) (← getNat a[2]!)))
+  | "probe" => pure .probe
+  | _ => throw s!"unknown op {k}"
+
+def jUid (s : Option VStmt) : Json := match s with | some x => jNat x.uid | none => Json.null
+def jUids (l : List VStmt) : Json := jList (fun s => jNat s.uid) l
+
+structure Dom where
+  ids : List (Option Int)
+  ks : List Int
+  codes : List Nat
+  objs : List (Nat × Int)
+
+def battery (d : Dom) (v : Viewer) : Json :=
+  let idv (f : Int → Json) (dflt : Json) : Json :=
+    jList (fun (o : Option Int) => match o with | some i => f i | none => dflt) d.ids
+  Json.arr #[
+    jNat v.len,
+    jUids v.visible,
+    Json.arr #[jInt v.range.1, jInt v.range.2],
+    Json.arr #[jNat v.len, jInt (v.range.1 + 1), jInt v.range.2],
+    jList jInt ((List.range v.len).map (fun (i : Nat) => v.range.1 + 1 + Int.ofNat i)),
+    jList (fun k => match v.getItem k with | some s => jNat s.uid | none => Json.str "IndexError") d.ks,
+    jUids (v.getSlice 1 3),
+    jUids (v.getSlice (-2) 99),
+    jList (fun (u : Nat × Int) => Json.bool (v.contains u.1 u.2)) d.objs,
+    jList (fun k => Json.bool (inRange v.range k)) d.ks,
+    idv (fun i => Json.bool (v.containsStmtId i)) (Json.bool false),
+    jList jInt v.allStmtIds,
+    jList (fun (o : Option Int) => match v.readBlock o with
+      | some b => Json.arr #[jInt b.range.1, jInt b.range.2]
+      | none => Json.null) d.ids,
+    jList (fun (o : Option Int) => jList jInt (v.blockStmtIds o)) d.ids,
+    idv (fun i => jUid (v.stmtById i)) Json.null,
+    jList (fun k => jUid (v.stmtByPos k)) d.ks,
+    jList (fun c => jUids (v.queryOperation c)) d.codes,
+    idv (fun i => jUids (v.visible.filter (fun s => s.core.id == i))) (Json.arr #[]),
+    jList (fun c => jUids (v.queryOperation c)) d.codes,
+    jUids v.visible,
+    Json.arr #[],
+    jList (fun (o : Option Int) => jInt (v.boundary [o])) d.ids,
+    jInt (v.boundary d.ids),
+    jInt (v.boundary [])]
+
+def jBErr : BErr → Json
+  | .dup => "dup" | .noStart => "noStart" | .mismatch => "mismatch" | .unclosed => "unclosed"
+
+def jVOut : VOut → Json
+  | .ok => Json.arr #["ok"]
+  | .none => Json.arr #["none"]
+  | .err e => Json.arr #["err", jBErr e]
+  | .badSlot => Json.arr #["badslot"]
+
+def runCmds (atomic : Bool) (d : Dom) : List Viewer → List Cmd → List Json
+  | _, [] => []
+  | slots, .probe :: rest =>
+    Json.arr #["probe", jList (battery d) slots] :: runCmds atomic d slots rest
+  | slots, .op o :: rest =>
+    match stepV atomic slots o with
+    | (slots', out) => jVOut out :: runCmds atomic d slots' rest
+
+def getPair (j : Json) : Except String (Nat × Int) := do
+  let a ← getArr j
+  if a.size != 2 then throw "[uid, id] expected"
+  pure (← getNat a[0]!, ← getInt a[1]!)
+
+def handle (j : Json) : Except String Json := do
+  let cmds ← listOf getCmd (← field j "ops")
+  let atomic ← getBool (fieldD j "atomic" (Json.bool true))
+  let d : Dom := { ids := ← listOf getOptInt (← field j "ids"), ks := ← listOf getInt (← field j "ks"),
+                   codes := ← listOf getNat (← field j "codes"),
+                   objs := ← listOf getPair (← field j "universe") }
+  pure (Json.arr (runCmds atomic d [] cmds).toArray)
+
+end LianVerif.Drv.BlockWorld
